@@ -226,6 +226,20 @@ def c04_directed(rng, cfg):
             r.choice([h.battery, h.sketch_name, h.sketch_version, h.heartbeat if h.vi >= 2 else h.battery])(n)
         elif k < 0.85:
             h.child(n, r.choice([0, 1, 3, 9, 200, 254]))
+        elif k < 0.93 and h.vi >= 2 and ch:  # smart sleep: reports of old and of LATE children, desired values in between
+            h.wake(n)
+            late = r.choice([x for x in (11, 12, 13, 14, 210) if x not in ch] or [211])
+            h.child(n, late, typ=r.choice([0, 1, 3, 6, 16]))
+            sub = h.free_sub()
+            h.set(n, late, sub, r.choice(["late", "1", ""]))          # report for the child presented while sleeping
+            c = r.choice(ch)
+            if r.random() < 0.6:
+                h.setchild(n, r.choice([c, late]), sub, r.choice(["want", 3, "名"]))   # desired, not reported
+            h.set(n, c, sub, r.choice(["x", "y"]))
+            h.set(n, late, h.free_sub(), "again")
+            if r.random() < 0.5:
+                h.wake(n)
+                h.set(n, late, sub, "after-wake")
         else:
             h.filler(r.randrange(1, 4))
     h.drain()
